@@ -358,7 +358,7 @@ func c17Stress(job map[string]any) map[string]any {
 	}
 	sort.Strings(names)
 	var wg sync.WaitGroup
-	var mism atomic.Int64
+	var mism, progress atomic.Int64
 	var firstBad atomic.Value
 	stop := make(chan struct{})
 	n := num("readers")
@@ -388,6 +388,7 @@ func c17Stress(job map[string]any) map[string]any {
 					buf := make([]byte, 1+r.Intn(6000))
 					for {
 						k, err := f.Read(buf)
+						progress.Add(1)
 						got = append(got, buf[:k]...)
 						if err == io.EOF {
 							break
@@ -429,11 +430,29 @@ func c17Stress(job map[string]any) map[string]any {
 	}
 	done := make(chan struct{})
 	go func() { wg.Wait(); close(done) }()
+	// "hang" is a verdict about PROGRESS, not about wall-clock time: no Read call returned anywhere for 45 s.
+	// A run that is merely slow (a loaded machine, the race detector) keeps making progress; if it is still
+	// going after 170 s the run is reported as infrastructure trouble (exit 2), never as a violation.
 	out := map[string]any{"out": "ok"}
-	select {
-	case <-done:
-	case <-time.After(60 * time.Second):
-		out["out"] = "hang"
+	started, last, lastAt := time.Now(), int64(-1), time.Now()
+wait:
+	for {
+		select {
+		case <-done:
+			break wait
+		case <-time.After(time.Second):
+			if p := progress.Load(); p != last {
+				last, lastAt = p, time.Now()
+			}
+			if time.Since(lastAt) > 45*time.Second {
+				out["out"] = "hang"
+				break wait
+			}
+			if time.Since(started) > 170*time.Second {
+				out["out"], out["detail"] = "infra", fmt.Sprintf("stress run still making progress after 170 s (%d reads done)", last)
+				break wait
+			}
+		}
 	}
 	close(stop)
 	out["mismatches"] = mism.Load()
